@@ -46,8 +46,9 @@ def judge(ctx, lines, name):
     path = os.path.join(ctx.work, name + ".ndjson")
     with open(path, "w") as f:
         f.writelines(lines)
-    r = ctx.tlc("Linearize", "TraceLinearize", "Trace.cfg", name=name, env={"TRACE": path}, expect_violation=True, workers=1,
-                xmx="4g", timeout=3000)
+    # (several JVMs side by side: keep each one's collector small)
+    r = ctx.tlc("Linearize", "TraceLinearize", "Trace.cfg", name=name, env={"TRACE": path, "JAVA_TOOL_OPTIONS": "-XX:ParallelGCThreads=2"},
+                expect_violation=True, workers=1, xmx="4g", timeout=3000)
     if r.error:
         raise vflib.InfraError(r.error + " (log %s)" % r.log_path)
     if not r.violated:
